@@ -78,7 +78,7 @@ func (r *Run) report() int {
 		}
 		rep := res.Rep
 		fmt.Printf("harness %s: paths=%d states=%d steps=%d asserts=%d/%d proved, queries=%d (%.1fs solver), wall=%.1fs\n",
-			res.H.Func, rep.Paths, rep.States, rep.Steps, rep.AssertsProved, rep.AssertsChecked, res.Stats.Queries, res.Stats.Time.Seconds(), res.Wall.Seconds())
+			res.H.Name, rep.Paths, rep.States, rep.Steps, rep.AssertsProved, rep.AssertsChecked, res.Stats.Queries, res.Stats.Time.Seconds(), res.Wall.Seconds())
 		for _, u := range rep.Unsupported {
 			fmt.Printf("INCONCLUSIVE property=%s harness=%s unsupported: %s\n", id, res.H.Func, u)
 		}
@@ -184,7 +184,7 @@ func (r *Run) writeEvidence(wall time.Duration) {
 	violations := 0
 	harnessInfo := []map[string]interface{}{}
 	for _, res := range r.results {
-		hi := map[string]interface{}{"harness": res.H.Func, "params": res.H.Params[r.tier], "loop_bound": res.H.Loop}
+		hi := map[string]interface{}{"harness": res.H.Name, "params": res.H.Params[r.tier], "loop_bound": res.H.Loop}
 		if res.LoadErr != "" {
 			hi["load_error"] = res.LoadErr
 			inconclusive = append(inconclusive, res.H.Func+": "+res.LoadErr)
